@@ -45,6 +45,7 @@ Definition isemQ (_ : lang) (f : fnid) (args : list Q) : option Q :=
   if translatesQ f then fsemQ f args else None.
 
 Definition generateQ := generate Q translatesQ.
+Definition generate_againQ := generate_again Q translatesQ.
 Definition execQ := exec Q 0 Qplus Qmult isemQ.
 Definition cache_afterQ := cache_after Q.
 
@@ -56,7 +57,7 @@ Definition outcome_eqb (a b : outcome Q) : bool :=
   | ROk x, ROk y => Qlist_eqb x y
   | RScalar x, RScalar y => Qeq_bool x y
   | RNone, RNone | RErrUnbound, RErrUnbound | RErrVec, RErrVec | RErrArity, RErrArity
-  | RErrFn, RErrFn | RIllFormed, RIllFormed => true
+  | RErrFn, RErrFn | RJunk, RJunk | RIllFormed, RIllFormed => true
   | _, _ => false
   end.
 
@@ -149,19 +150,28 @@ Inductive obs_out :=
 | OUnmodelled.                (* an outcome class the model does not have: always a mismatch *)
 Record point := mkPt { pt_t : Q; pt_y : list Q; pt_fv : list Q; pt_model : option (list Q); pt_exec : obs_out }.
 
+(** the same request a second time: the same text / KeyError / anything else (never matches) *)
+Inductive second_obs := SecSame | SecKey | SecOther.
+
 Record ccase := mkCase {
   c_lang : lang; c_model : cmodel Q; c_order : list name; c_free : list name;
-  c_gen : gobs; c_cache_after : list name; c_points : list point
+  c_gen : gobs; c_cache_after : list name; c_second : second_obs; c_points : list point
 }.
 
 (** aspects that differ: 1 generated program, 2 cached parameter dict after the call,
-    3 specification vs real model values, 4 execution outcome of the text *)
+    3 specification vs real model values, 4 execution outcome of the text,
+    5 the same request a second time *)
 Definition check_case (F : facts) (c : ccase) : list nat :=
   let g := generateQ F (c_lang c) (c_model c) (c_order c) (c_free c) in
   (if gen_eqb g (c_gen c) then [] else [1%nat])
   ++ (if list_eqb N.eqb (map fst (cache_afterQ F (c_model c) (c_free c))) (c_cache_after c) then [] else [2%nat])
   ++ (if forallb (fun p => optlist_eqb (spec_rhs (c_model c) (c_order c) (c_free c) (pt_fv p) (pt_t p) (pt_y p)) (pt_model p)) (c_points c)
       then [] else [3%nat])
+  ++ (match c_second c with
+      | SecSame => if gen_eqb (generate_againQ F (c_lang c) (c_model c) (c_order c) (c_free c)) (c_gen c) then [] else [5%nat]
+      | SecKey => match generate_againQ F (c_lang c) (c_model c) (c_order c) (c_free c) with GErrKey => [] | _ => [5%nat] end
+      | SecOther => [5%nat]
+      end)
   ++ (match g with
       | GOk p =>
         if forallb (fun pt => match pt_exec pt with
